@@ -21,7 +21,8 @@ NAMES = ["/mt_c0201e0038_top_a.mtrl", "/mt_c0201b0001_a.mtrl", "mat_b.mtrl", "j_
 def plan(tier):
     if tier == "quick":
         return [("debug", 16, dict(n=60, maxv=2000, sweep="small")), ("release", 4, dict(n=40, maxv=2000, sweep="none")), ("asan", 2, dict(n=12, maxv=1000, sweep="none"))]
-    return [("debug", 16, dict(n=450, maxv=65535, sweep="full")), ("release", 8, dict(n=250, maxv=20000, sweep="none")), ("asan", 4, dict(n=50, maxv=3000, sweep="none"))]
+    return [("debug", 16, dict(n=450, maxv=65535, sweep="full")), ("release", 8, dict(n=250, maxv=20000, sweep="none")), ("asan", 4, dict(n=50, maxv=3000, sweep="none")),
+            ("memcheck", 4, dict(n=12, maxv=600, sweep="none"))]
 
 
 def gen_decl(rng, nstreams, pairs=None, need_position=None, fill=0):
